@@ -99,14 +99,34 @@ def _scan_one(args):
     return src, r.returncode, (r.stderr or '')[-1500:]
 
 
-def prepare(repo='/repo', verbose=True):
-    """returns (cache_dir, info).  cache_dir holds one facts json per unit."""
+def prepare(repo='/repo', verbose=True, base=None, changed=None):
+    """returns (cache_dir, info).  cache_dir holds one facts json per unit.
+    base/changed (scratch copies only): facts of an already extracted tree `base` = (cache_dir, repo_path) are reused for
+    every unit when the variant differs from it only in the .cpp files `changed` (a .cpp is included by no other unit)"""
     t0 = time.time()
     ensure_tool()
     repo = os.path.abspath(repo)
     th = tree_hash(repo)
-    cache = os.path.join(BUILD, 'cache', th)
+    scratch = repo != '/repo'
+    cache = os.path.join(BUILD, ('cache_scratch_%d' % os.getpid()) if scratch else 'cache', th)
     done = os.path.join(cache, 'DONE.json')
+    if os.path.exists(done):
+        info = json.load(open(done))
+        info['cached'] = True
+        return cache, info
+    # several checks may start on the same tree at once: one extracts, the others wait for it
+    import fcntl
+    os.makedirs(os.path.dirname(cache), exist_ok=True)
+    lock = open(os.path.join(os.path.dirname(cache), '.lock-' + th), 'w')
+    fcntl.flock(lock, fcntl.LOCK_EX)
+    try:
+        return _prepare_locked(repo, th, cache, done, base, changed, t0)
+    finally:
+        fcntl.flock(lock, fcntl.LOCK_UN)
+        lock.close()
+
+
+def _prepare_locked(repo, th, cache, done, base, changed, t0):
     if os.path.exists(done):
         info = json.load(open(done))
         info['cached'] = True
@@ -116,8 +136,18 @@ def prepare(repo='/repo', verbose=True):
     units = _configure(repo, cfgdir)
     root = os.path.join(repo, 'src')
     jobs = []
+    reuse = base is not None and changed is not None and all(c.endswith('.cpp') for c in changed)
+    changed_abs = {os.path.join(repo, c) for c in (changed or [])}
     for e in units:
         out = os.path.join(cache, os.path.basename(e['file'])[:-4] + '.json')
+        if reuse and e['file'] not in changed_abs:
+            src_json = os.path.join(base[0], os.path.basename(out))
+            if os.path.exists(src_json):
+                with open(src_json) as fh:
+                    txt = fh.read()
+                with open(out, 'w') as fh:
+                    fh.write(txt.replace('"' + base[1].rstrip('/') + '/', '"' + repo.rstrip('/') + '/'))
+                continue
         jobs.append((cfgdir, e['file'], out, root))
     failed = []
     with ThreadPoolExecutor(max_workers=min(16, os.cpu_count() or 4)) as ex:
@@ -132,8 +162,9 @@ def prepare(repo='/repo', verbose=True):
     with open(done, 'w') as fh:
         json.dump(info, fh)
     # keep the cache small: drop all but the 6 newest trees
-    cdir = os.path.join(BUILD, 'cache')
-    olds = sorted((os.path.getmtime(os.path.join(cdir, d)), d) for d in os.listdir(cdir))
+    cdir = os.path.dirname(cache)
+    olds = sorted((os.path.getmtime(os.path.join(cdir, d)), d) for d in os.listdir(cdir)
+                  if os.path.exists(os.path.join(cdir, d, 'DONE.json')))
     for _, d in olds[:-6]:
         shutil.rmtree(os.path.join(cdir, d), ignore_errors=True)
     return cache, info
@@ -237,9 +268,11 @@ class Facts:
         return []
 
 
-def load(repo='/repo'):
-    cache, info = prepare(repo)
-    return Facts(cache, info)
+def load(repo='/repo', base=None, changed=None):
+    cache, info = prepare(repo, base=base, changed=changed)
+    f = Facts(cache, info)
+    f.cache_dir = cache
+    return f
 
 
 # ---- generic tree walking helpers used by all engines
